@@ -5,7 +5,7 @@ Domains
   decimals  <=25 integer digits, <=18 fractional digits: uniform digits, and
             prefixes (6..18 fractional digits) of famous constants / repeating
             tails, which is where a closed-form 'simplifier' would bite
-  split     all strings over [0-9.] up to length L (5 quick, 7 thorough) are
+  split     all strings over [0-9. ] (digits, point, space) up to length L (5 quick, 7 thorough) are
             lexed and compared with a reference splitter; a stride sample of
             them is also executed and every pushed value compared
 Oracle: fractions.Fraction(piece), exact; type must be int / sympy Integer /
@@ -34,7 +34,10 @@ T = vyxal.lexer.TokenType
 
 def ref_split(s: str):
     """Reference splitter written from the lexer's comments: a leading 0 stands
-    alone unless followed by '.', a second '.' starts a new number."""
+    alone unless followed by '.', a second '.' starts a new number; a space
+    separates literals (and is not part of any)."""
+    if " " in s:
+        return [p for seg in s.split(" ") for p in ref_split(seg)]
     out, i, n = [], 0, len(s)
     while i < n:
         if s[i] == "0" and not (i + 1 < n and s[i + 1] == "."):
@@ -69,7 +72,7 @@ def check_literal(text: str):
         toks = vyxal.lexer.tokenise(text)
     except Exception as e:  # noqa: BLE001
         return ("C05:lexer-raises", f"tokenise({text!r}) raised {type(e).__name__}: {e}")
-    got = [(t.name, t.value) for t in toks]
+    got = [(t.name, t.value) for t in toks if not (t.name == T.GENERAL and t.value == " ")]
     want = [(T.NUMBER, p) for p in pieces]
     if got != want:
         return ("C05:split", f"{text!r} lexes as {[v for _, v in got]!r}, documented split is {pieces!r}")
@@ -122,15 +125,16 @@ def _shard_ints(rec, arg):
 
 def _shard_split(rec, arg):
     length, shard, nshards, exec_stride = arg
-    alphabet = "0123456789."
+    alphabet = "0123456789. "
     for idx, tup in enumerate(itertools.product(alphabet, repeat=length)):
         if idx % nshards != shard:
             continue
         s = "".join(tup)
         pieces = ref_split(s)
         try:
-            got = [t.value for t in vyxal.lexer.tokenise(s)]
-            kinds_ok = all(t.name == T.NUMBER for t in vyxal.lexer.tokenise(s))
+            toks_ = [t for t in vyxal.lexer.tokenise(s) if not (t.name == T.GENERAL and t.value == " ")]
+            got = [t.value for t in toks_]
+            kinds_ok = all(t.name == T.NUMBER for t in toks_)
         except Exception as e:  # noqa: BLE001
             got, kinds_ok = repr(e), False
         rec.case(nontrivial=len(pieces) >= 2, cls=f"split-len{length}")
@@ -182,8 +186,9 @@ def _shard_hyp(rec, arg):
     def t_adj(parts):
         _do(rec, "".join(parts), "adjacent")
 
-    piece = st.one_of(st.text("0123456789", min_size=1, max_size=6), st.just("."), st.just("0"), st.just("0."))
-    campaign.hyp_run(t_adj, {"parts": st.lists(piece, min_size=2, max_size=5)}, seed + 13, max(50, n // 4))
+    piece = st.one_of(st.text("0123456789", min_size=1, max_size=6), st.just("."), st.just("0"), st.just("0."), st.just(" "), st.just(" "),
+                      st.tuples(st.integers(0, 999), st.integers(0, 999)).map(lambda t: f"{t[0]}.{t[1]}"))
+    campaign.hyp_run(t_adj, {"parts": st.lists(piece, min_size=2, max_size=6)}, seed + 13, max(80, n // 3))
     rec.sample({"literal": "1.4142135623730951", "expected": str(Fraction("1.4142135623730951"))})
 
 
@@ -197,10 +202,10 @@ def run(rec, tier, seed):
     jobs = []
     for L in range(1, maxlen + 1):
         ns = 1 if L <= 3 else campaign.NCPU * (1 if L < 7 else 4)
-        stride = {1: 1, 2: 1, 3: 1, 4: 8, 5: 80, 6: 900, 7: 9000}[L]
+        stride = {1: 1, 2: 1, 3: 1, 4: 10, 5: 120, 6: 1500, 7: 18000}[L]
         jobs += [(L, s, ns, stride) for s in range(ns)]
     campaign.parallel(rec, _shard_split, jobs)
-    rec.exhaustive.append(f"lexing of all strings over [0-9.] of length<={maxlen} against the reference splitter")
+    rec.exhaustive.append(f"lexing of all strings over [0-9. ] of length<={maxlen} against the reference splitter")
     n = 250 if quick else 6000
     campaign.parallel(rec, _shard_hyp, [(seed * 1000 + i, n) for i in range(campaign.NCPU)])
 
